@@ -22,7 +22,7 @@ from ..evidence import Run, canon_hash
 
 PID = "C17"
 SHARDS = {"quick": 8, "thorough": 16}
-SHARD_TIMEOUT = {"quick": 900, "thorough": 3000}
+SHARD_TIMEOUT = {"quick": 900, "thorough": 7200}
 N = {"quick": 2000, "thorough": 60000}
 
 M_D8 = "check_input-int-getter-ignores-validate-options"
@@ -46,7 +46,8 @@ def new_run():
         "return-input / return-new / container / raise) x 6-10 equivalent "
         "variants (designation none / int / str, binding function / method / "
         "classmethod / staticmethod, call shape, sync / async); non-trivial = "
-        "at least one designated frame reaches a real validate; distinct = "
+        "a designated input is a frame (not None under Optional) or an output "
+        "is designated, i.e. a real validate is reached; distinct = "
         "canonical hash of (scenario, variant)",
         ["reference wrapper pvm/c17_gen.py:reference written from the statement",
          "schema.validate itself is trusted here (C01-C03 look at it)",
@@ -221,6 +222,20 @@ def gen_scenario(rng):
         scn["return_annotated"] = scn["out"] is not None
     scn["plan"], scn["values"] = plan, values
     return scn
+
+
+def nontrivial(scn):
+    """at least one designated input is a frame (not None under Optional) or
+    an output is designated: a real validate is reached unless check_types
+    takes its documented shortcut for a frame that carries an equal schema"""
+    def frames(vs):
+        if isinstance(vs, list):
+            return any(frames(x) for x in vs)
+        if isinstance(vs, dict):
+            return any(frames(x) for x in vs.values())
+        return vs[0] == "frame"
+    return bool(scn["out"]) or any(
+        frames(scn["values"][d]) for d in scn["designated"] if d in scn["values"])
 
 
 def gen_variants(rng, scn):
@@ -564,6 +579,33 @@ def features(scn, var):
     }
 
 
+def coverage_classes(scn, f):
+    """Program classes in which binding / option defects were found: counted
+    (and floored) so that a run that never reaches them is inconclusive."""
+    out = []
+    nrest = len(scn["values"].get("rest", []))
+    if f["deco"] == "check_input" and f["designation"] == "int":
+        if f["df_by_keyword"]:
+            out.append("int-getter:df-by-keyword")
+        if f["options_nondefault"]:
+            out.append("int-getter:options-given")
+    if f["deco"] in ("check_input", "check_io"):
+        if f["method_one_arg_short"]:
+            out.append("input-getter:method-called-one-arg-short")
+        if f["designation"] in ("str", "-") and nrest and not f["df_by_keyword"]:
+            out.append("str-getter:positional-call-with-varargs")
+    if f["deco"] == "check_types":
+        if f["has_varpos"] and nrest == 1:
+            out.append("check_types:exactly-one-star-arg")
+        if f["kw_named_kw"]:
+            out.append("check_types:keyword-named-like-varkw")
+        if scn.get("df_annotation") == "union":
+            if scn["options"]["lazy"]:
+                out.append("check_types:union-lazy")
+            out.append("check_types:union-" + scn["backend"])
+    return out
+
+
 def _misbind_prediction(scn, var):
     """What decorators.py's ``sig.bind_partial(None, *args)`` branch would
     validate: -> set of predicted outcome summaries (or {"TypeError"})."""
@@ -605,7 +647,8 @@ def classify(scn, var, act, ref, kind):
     out = act.get("outcome")
     calls = act["rec"]["calls"]
     if f["deco"] == "check_input" and f["designation"] == "int":
-        if f["df_by_keyword"] and out and out[1] == ("exc", "IndexError") \
+        if f["df_by_keyword"] and not calls and out \
+                and out[1] == ("exc", "IndexError") \
                 and "index" in (act.get("exc_repr") or ""):
             return M_INT_KW
         if f["options_nondefault"]:
@@ -629,7 +672,7 @@ def classify(scn, var, act, ref, kind):
         if want is not None and want[1] and got == ("tuple", [want]):
             return M_STR_VARARGS
     if f["deco"] == "check_types" and scn.get("df_annotation") == "union" \
-            and scn["options"]["lazy"] \
+            and scn["options"]["lazy"] and ref["called"] and not calls \
             and out and out[0] == "raise" and out[1][0] == "SchemaErrors":
         # _check_arg catches errors.SchemaError only; with lazy=True the
         # first member's SchemaErrors escapes before the next member is tried
@@ -646,10 +689,13 @@ def classify(scn, var, act, ref, kind):
         finally:
             w.cleanup()
     if f["deco"] == "check_types" and scn.get("df_annotation") == "union" \
-            and scn["backend"] != "pandas" and ref["called"] is False \
-            and out and out[1] == ("exc", "BackendNotFoundError"):
-        # _check_arg: SchemaErrors(schema_errors=error_handler.collect_errors)
-        # (a bound method) when the argument is not a pandas DataFrame
+            and scn["backend"] == "polars" and ref["called"] is False \
+            and not calls and out and out[1] == ("exc", "BackendNotFoundError") \
+            and "polars.dataframe.frame.DataFrame" in (act.get("exc_repr") or ""):
+        # _check_arg, every member of the Union rejected the argument:
+        # errors.SchemaErrors(schema, ..., data=<polars DataFrame>) looks the
+        # backend up by type(data), the polars backends are registered for
+        # LazyFrame only (schema.validate converts, the decorator does not)
         return M_CT_UNION_NONPANDAS
     if f["deco"] == "check_types" and calls:
         # validate_args: len(arguments) > len(named_arguments) is false for
@@ -744,7 +790,7 @@ def one_case(run, rng, scn=None, variants=None):
     groups = {}
     for vi, var in enumerate(variants):
         f = features(scn, var)
-        run.case(canon_hash([scn, var]), True,
+        run.case(canon_hash([scn, var]), nontrivial(scn),
                  sample={"scenario": {k: scn[k] for k in
                                       ("deco", "template", "options", "plan",
                                        "designated", "out")},
@@ -753,6 +799,8 @@ def one_case(run, rng, scn=None, variants=None):
         run.count("variant:binding:" + var["binding"])
         run.count("variant:" + ("async" if var["async"] else "sync"))
         run.count("variant:df_passed_by:" + ("keyword" if f["df_by_keyword"] else "position"))
+        for cls in coverage_classes(scn, f):
+            run.count("class:" + cls)
         try:
             ref = execute(scn, var, True)
             act = execute(scn, var, False)
@@ -780,7 +828,8 @@ def one_case(run, rng, scn=None, variants=None):
             and scn["values"]["df"][2] == "carry_stale" and not ref.get("carry_failed")
         run.count("ref:body_called" if ref["called"] else "ref:body_not_called")
         if ref["outcomes"] and ref["outcomes"][0][0] == "raise":
-            run.count("ref:raises:" + str(ref["outcomes"][0][1][0]))
+            what = ref["outcomes"][0][1]
+            run.count("ref:raises:" + str(what if isinstance(what, str) else what[0]))
         else:
             run.count("ref:returns")
         if stale:
@@ -838,27 +887,38 @@ def run(run, ctx):
         one_case(run, ctx.rng(PID, i))
 
 
-# about 1/4 of what the quick tier observes on the unchanged tree (seed 0);
-# the thorough tier scales with its number of scenarios
+# about 1/4 of what the quick tier observes on the repaired tree (seed 12345;
+# seeds 0-3 are within a few percent); the thorough tier scales with its
+# number of scenarios
 FLOORS_QUICK = {
-    "outcome_compared": 3900, "received_objects_compared": 2300,
+    "outcome_compared": 3900, "received_objects_compared": 2600,
     "caller_frames_after_compared": 3500,
     "metamorphic_scenarios_compared": 500,
-    "variant_agrees_with_reference": 3000,
-    "scenario:check_input": 150, "scenario:check_output": 85,
-    "scenario:check_io": 90, "scenario:check_types": 165,
-    "variant:designation:int": 450, "variant:designation:none": 190,
-    "variant:designation:str": 550, "variant:binding:method": 1300,
-    "variant:binding:classmethod": 650, "variant:binding:staticmethod": 650,
-    "variant:async": 950, "variant:df_passed_by:keyword": 1500,
-    "option:head": 95, "option:tail": 48, "option:sample": 50,
-    "option:lazy": 95, "option:inplace": 75,
-    "ref:body_called": 2600, "ref:body_not_called": 1250,
-    "ref:raises:BodyError": 300, "ref:raises:SchemaErrors": 350,
-    "check_types:annotation:optional": 35, "check_types:annotation:union": 30,
-    "accessor:equal-schema-valid-frame:judged": 60,
-    "accessor:different-schema:judged": 40,
-    "backend:polars": 70,
+    "variant_agrees_with_reference": 3900,
+    "scenario:check_input": 160, "scenario:check_output": 85,
+    "scenario:check_io": 85, "scenario:check_types": 160,
+    "variant:designation:int": 470, "variant:designation:none": 210,
+    "variant:designation:str": 590, "variant:binding:method": 1300,
+    "variant:binding:classmethod": 660, "variant:binding:staticmethod": 660,
+    "variant:async": 1000, "variant:df_passed_by:keyword": 1500,
+    "option:head": 97, "option:tail": 50, "option:sample": 46,
+    "option:lazy": 100, "option:inplace": 78,
+    "ref:body_called": 2700, "ref:body_not_called": 1200,
+    "ref:raises:BodyError": 290, "ref:raises:SchemaErrors": 360,
+    "check_types:annotation:optional": 36, "check_types:annotation:union": 31,
+    "accessor:equal-schema-valid-frame:judged": 78,
+    "accessor:different-schema:judged": 130,
+    "backend:polars": 76,
+    # the program classes in which defects were found and repaired
+    "class:int-getter:df-by-keyword": 150,
+    "class:int-getter:options-given": 280,
+    "class:str-getter:positional-call-with-varargs": 180,
+    "class:input-getter:method-called-one-arg-short": 370,
+    "class:check_types:exactly-one-star-arg": 150,
+    "class:check_types:keyword-named-like-varkw": 16,
+    "class:check_types:union-lazy": 53,
+    "class:check_types:union-pandas": 210,
+    "class:check_types:union-polars": 32,
 }
 
 
